@@ -2,3 +2,11 @@ add("C01", "exploration",
     "Every element of every loaded image is compared bit for bit with the sample an independent encoder wrote, over seeded products spanning sample type, geometry, bit patterns, filesystems and records_per_chunk classes, plus an exhaustive small block (lines x rpc). Held means: no mismatch on the executions produced.",
     "Trusted: CPython, NumPy, xarray, fsspec, my encoder/reference decoder and the frozen layout table (vf/spec/layout.json). Synthetic well-formed files only.",
     "reference-model monitor (independent encoder) + icontract contracts on the real read path", "DESIGN.md §4 C01")
+add("C02", "exploration",
+    "Every index expression of an exhaustive small-image block (all ints, slices incl. negative steps, masks, short arrays; every rpc) and seeded random expressions on larger images is applied to the lazy image, to an in-memory twin and to a NumPy-backed control backend under xarray's own lazy layer; shape, dims, coords, dtype and values (bitwise) or exception class must agree with the twin. Deviations that the control backend reproduces byte for byte are attributed to xarray (open known finding), everything else is a violation.",
+    "Trusted: NumPy/xarray semantics on in-memory arrays (the twin), my sample decoder. Exhaustive only for the stated small domain.",
+    "three-way differential monitor (lazy vs in-memory twin vs control backend) + shape/dtype contract on Array.__getitem__", "DESIGN.md §4 C02")
+add("C11", "exploration",
+    "Every load's complete I/O history (open/seek/read with offsets and sizes) is recorded by an instrumented fsspec filesystem and checked offline against group extents computed from the model: reads inside the file, inside one rpc-group overlapping the requested span, at most one per group, no other file touched; open-time reads front to back and at most ceil(lines/rpc) after the 720-byte descriptor.",
+    "The requested line span is taken from a NumPy-backed control backend under xarray's lazy layer (what xarray asks a BASIC backend for), not from the repository. Trusted: tracefs file objects behave like real files.",
+    "offline checker over a recorded event log from a tracing filesystem", "DESIGN.md §4 C11")
